@@ -129,3 +129,8 @@ func vDeflated(s string) string
 func vBytesOf(s string) []byte
 func vSignatureOf(url string) string
 func vSigVerifies(signatureB64, content string, key *rsa.PrivateKey, hash crypto.Hash) bool
+
+func vB64AlphabetAxiom()
+func vSignedHash(signatureB64 string) crypto.Hash
+
+func vSetSignedContent(s string)
